@@ -5,8 +5,19 @@ hashlib.scrypt / hmac when a specification names them as primitive symbols).  No
 """
 from __future__ import annotations
 
+import base64
 import hashlib
 import hmac as _hmac
+
+H64 = b"./0123456789ABCDEFGHIJKLMNOPQRSTUVWXYZabcdefghijklmnopqrstuvwxyz"
+
+
+def _saslprep(text):
+    """RFC 4013 for the strings used in the sweep (no prohibited output is ever generated there): map + NFKC"""
+    import stringprep
+    import unicodedata
+    data = "".join(" " if stringprep.in_table_c12(c) else c for c in text if not stringprep.in_table_b1(c))
+    return unicodedata.normalize("NFKC", data)
 
 
 class EvalError(Exception):
@@ -64,10 +75,61 @@ def evaluate(term, inputs, env=None, prims=None):
             if not a:
                 raise EvalError("rep of empty string")
             return (a * (t[2] // len(a) + 1))[: t[2]]
+        if op == "str":
+            return t[1].encode("ascii")
+        if op == "repdyn":
+            return ev(t[1]) * (t[2] + ev(t[3])[0])
+        if op == "takelen":
+            return ev(t[1])[: len(ev(t[2]))]
+        if op == "hex":
+            return ev(t[1]).hex().encode()
+        if op == "upperhex":
+            return ev(t[1]).hex().upper().encode()
+        if op == "upper":           # upper-casing of text (Unicode aware when the bytes are UTF-8 text, ASCII otherwise)
+            data = ev(t[1])
+            try:
+                return data.decode("utf-8").upper().encode("utf-8")
+            except UnicodeDecodeError:
+                return bytes(b - 32 if 97 <= b <= 122 else b for b in data)
+        if op == "b64nopad":
+            return base64.b64encode(ev(t[1])).rstrip(b"=")
+        if op == "lower":
+            return bytes(b + 32 if 65 <= b <= 90 else b for b in ev(t[1]))
+        if op == "utf16le":
+            return ev(t[1]).decode("utf-8").encode("utf-16-le")
+        if op == "b64":
+            return base64.b64encode(ev(t[1]))
+        if op == "ab64":
+            return base64.b64encode(ev(t[1])).rstrip(b"=").replace(b"+", b".")
+        if op == "h64groups":
+            data = ev(t[1])
+            out = bytearray()
+            for i2, i1, i0, n in t[2]:
+                v = ((data[i2] if i2 >= 0 else 0) << 16) | ((data[i1] if i1 >= 0 else 0) << 8) | (data[i0] if i0 >= 0 else 0)
+                for _ in range(n):
+                    out.append(H64[v & 63])
+                    v >>= 6
+            return bytes(out)
+        if op == "h64char":
+            return bytes([H64[t[1]]])
+        if op == "select":
+            data = ev(t[1])
+            return bytes(data[i] for i in t[2])
+        if op == "dec2":
+            return b"%02d" % t[1]
+        if op == "hexint":
+            return b"%x" % t[1]
+        if op == "xorkey":
+            data, key = ev(t[1]), ev(t[2])
+            return bytes(b ^ key[(t[3] + i) % len(key)] for i, b in enumerate(data))
+        if op == "b64url":
+            return base64.urlsafe_b64encode(ev(t[1]))
+        if op == "saslprep":
+            return _saslprep(ev(t[1]).decode("utf-8")).encode("utf-8")
         if op == "hmac":            # primitive symbol (algorithm layer): HMAC(alg, key, msg) via the stdlib
             return _hmac.new(ev(t[2]), ev(t[3]), t[1]).digest()
         if op == "pbkdf2":          # primitive symbol: PBKDF2-HMAC(alg, pw, salt, rounds, n) via hashlib
-            return hashlib.pbkdf2_hmac(t[1], ev(t[2]), ev(t[3]), t[4], t[5])
+            return hashlib.pbkdf2_hmac(t[1], ev(t[2]), ev(t[3]), t[4], t[5] or None)
         if op == "scrypt":
             return hashlib.scrypt(ev(t[1]), salt=ev(t[2]), n=t[3], r=t[4], p=t[5], dklen=t[6], maxmem=2 ** 30)
         if op in prims:
